@@ -25,14 +25,19 @@ set_option linter.unusedSectionVars false
 set_option linter.unusedVariables false
 
 variable {F : Type} [Scalar F]
+variable {fa : List (Nat × Nat)}
 
 /-! ## 1. Case tables -/
 
 /-- `send_connection_batch`, exactly. -/
 theorem sendBatch_exact (l : FLink F) (now : Nat) (fn : List Nat) :
-    sendConnectionBatch l now fn =
+    sendConnectionBatch fa l now fn =
       if l.queue.isEmpty then ((l.takeBatch now).1, [], true, fn)
-      else if fn.contains l.core.connId then ((l.takeBatch now).1, [], false, fn.erase l.core.connId)
+      else if fn.contains l.core.connId then
+        ((l.takeBatch now).1,
+          ((bytesOf l.queue).take (failPrefix fa l.core.connId (fn.count l.core.connId))).map
+            (fun y => (l.core.connId, y)),
+          false, fn.erase l.core.connId)
       else ((l.takeBatch now).1, (bytesOf l.queue).map (fun y => (l.core.connId, y)), true, fn) := by
   have ht := (takeBatch_spec l now).1
   unfold sendConnectionBatch
@@ -41,7 +46,7 @@ theorem sendBatch_exact (l : FLink F) (now : Nat) (fn : List Nat) :
   split
   · rfl
   · split
-    · rfl
+    · simp [bytesOf, List.map_take, List.map_map, Function.comp_def]
     · simp [bytesOf, List.map_map, Function.comp_def]
 
 theorem fnLe_of_eq_or_erase {fn fn' : List Nat} {a : Nat} (h : fn' = fn ∨ fn' = fn.erase a) : Hk.FnLe fn fn' := by
@@ -59,14 +64,16 @@ theorem count_of_eq_or_erase {fn fn' : List Nat} {a b : Nat} (h : fn' = fn ∨ f
 common tail of `forward_via_connection` and `send_stall_probes`) as a case table.  `fn` is the list of pending
 send-failure injections when the link is reached. -/
 theorem fwdLink_cases (l : FLink F) (pkt : Bytes) (seq : Option Nat) (now : Nat) (fn : List Nat) :
-    let r := Hk.fwdLink l pkt seq now fn
+    let r := Hk.fwdLink fa l pkt seq now fn
     (l.queue.length + 1 < l.regime.batchSize ∧ r.1 = (l.queueDataPacket pkt seq now).1 ∧ r.2.1 = [] ∧ r.2.2 = fn) ∨
     (l.regime.batchSize ≤ l.queue.length + 1 ∧ l.core.connId ∉ fn ∧
       r.1 = ((l.queueDataPacket pkt seq now).1.takeBatch now).1 ∧
       r.2.1 = (bytesOf (l.queue ++ [(pkt, seq, now)])).map (fun y => (l.core.connId, y)) ∧ r.2.2 = fn) ∨
     (l.regime.batchSize ≤ l.queue.length + 1 ∧ l.core.connId ∈ fn ∧
       r.1 = ((l.queueDataPacket pkt seq now).1.takeBatch now).1.markForRecovery ∧
-      r.2.1 = [] ∧ r.2.2 = fn.erase l.core.connId) := by
+      r.2.1 = ((bytesOf (l.queue ++ [(pkt, seq, now)])).take
+          (failPrefix fa l.core.connId (fn.count l.core.connId))).map (fun y => (l.core.connId, y)) ∧
+      r.2.2 = fn.erase l.core.connId) := by
   obtain ⟨hq1, hq2, hq3, -, -, -⟩ := queueDataPacket_spec l pkt seq now
   dsimp only
   unfold Hk.fwdLink
@@ -92,7 +99,7 @@ theorem fwdLink_cases (l : FLink F) (pkt : Bytes) (seq : Option Nat) (now : Nat)
     exact ⟨by omega, rfl, rfl, rfl⟩
 
 theorem fwdLink_fn (l : FLink F) (pkt : Bytes) (seq : Option Nat) (now : Nat) (fn : List Nat) :
-    (Hk.fwdLink l pkt seq now fn).2.2 = fn ∨ (Hk.fwdLink l pkt seq now fn).2.2 = fn.erase l.core.connId := by
+    (Hk.fwdLink fa l pkt seq now fn).2.2 = fn ∨ (Hk.fwdLink fa l pkt seq now fn).2.2 = fn.erase l.core.connId := by
   rcases fwdLink_cases l pkt seq now fn with h | h | h
   · exact Or.inl h.2.2.2
   · exact Or.inl h.2.2.2.2
@@ -102,8 +109,8 @@ theorem fwdLink_fn (l : FLink F) (pkt : Bytes) (seq : Option Nat) (now : Nat) (f
 one) as a case table: the 1-in-100 counter does not fire — only the counter moves —, or it fires and the
 copy goes through `fwdLink` on the record with the counter back at 0. -/
 theorem probeLink_cases (l : FLink F) (pkt : Bytes) (seq : Option Nat) (now : Nat) (fn : List Nat) :
-    (l.probeCounter + 1 < 100 ∧ Hk.probeLink l pkt seq now fn = (l.stallProbeDue.1, [], fn)) ∨
-    (100 ≤ l.probeCounter + 1 ∧ Hk.probeLink l pkt seq now fn = Hk.fwdLink l.stallProbeDue.1 pkt seq now fn) := by
+    (l.probeCounter + 1 < 100 ∧ Hk.probeLink fa l pkt seq now fn = (l.stallProbeDue.1, [], fn)) ∨
+    (100 ≤ l.probeCounter + 1 ∧ Hk.probeLink fa l pkt seq now fn = Hk.fwdLink fa l.stallProbeDue.1 pkt seq now fn) := by
   obtain ⟨d1, -⟩ := stallProbeDue_spec l
   unfold Hk.probeLink
   by_cases h : 100 ≤ l.probeCounter + 1
@@ -117,11 +124,11 @@ theorem probeLink_cases (l : FLink F) (pkt : Bytes) (seq : Option Nat) (now : Na
     exact ⟨by omega, rfl⟩
 
 theorem probeLink_fn (l : FLink F) (pkt : Bytes) (seq : Option Nat) (now : Nat) (fn : List Nat) :
-    (Hk.probeLink l pkt seq now fn).2.2 = fn ∨ (Hk.probeLink l pkt seq now fn).2.2 = fn.erase l.core.connId := by
+    (Hk.probeLink fa l pkt seq now fn).2.2 = fn ∨ (Hk.probeLink fa l pkt seq now fn).2.2 = fn.erase l.core.connId := by
   rcases probeLink_cases l pkt seq now fn with ⟨-, h⟩ | ⟨-, h⟩
   · rw [h]; exact Or.inl rfl
   · rw [h]
-    have := fwdLink_fn l.stallProbeDue.1 pkt seq now fn
+    have := fwdLink_fn (fa := fa) l.stallProbeDue.1 pkt seq now fn
     rwa [(stallProbeDue_spec l).2.2.2.1] at this
 
 /-! ## 2. `send_stall_probes`, position by position -/
@@ -137,7 +144,7 @@ theorem probeCalled_iff (sel i : Nat) (l : FLink F) :
     exact ⟨⟨a, by simp [b]⟩, by simp [c]⟩
 
 theorem stallProbesGo_fnLe (pkt : Bytes) (seq : Option Nat) (now sel : Nat) (ls : List (FLink F)) (i : Nat)
-    (fn : List Nat) : Hk.FnLe fn (stallProbesGo pkt seq now sel ls i fn).2.2 := by
+    (fn : List Nat) : Hk.FnLe fn (stallProbesGo fa pkt seq now sel ls i fn).2.2 := by
   induction ls generalizing i fn with
   | nil => exact Hk.FnLe.refl _
   | cons l rest ih =>
@@ -153,12 +160,12 @@ differs from the list the pass started with only by erasures of conn ids of EARL
 put on the wire is part of the wire output of the pass; the failure list only shrinks afterwards. -/
 theorem probes_get (pkt : Bytes) (seq : Option Nat) (now sel : Nat) :
     ∀ (ls : List (FLink F)) (i : Nat) (fn : List Nat) (k : Nat) (l : FLink F), ls[k]? = some l →
-      (¬ probeCalled sel (i + k) l ∧ (stallProbesGo pkt seq now sel ls i fn).1[k]? = some l) ∨
+      (¬ probeCalled sel (i + k) l ∧ (stallProbesGo fa pkt seq now sel ls i fn).1[k]? = some l) ∨
       (probeCalled sel (i + k) l ∧ ∃ fnk, Hk.FnLe fn fnk ∧
         (∀ a, (∀ m ∈ ls.take k, m.core.connId ≠ a) → fnk.count a = fn.count a) ∧
-        (stallProbesGo pkt seq now sel ls i fn).1[k]? = some (Hk.probeLink l pkt seq now fnk).1 ∧
-        Hk.FnLe (Hk.probeLink l pkt seq now fnk).2.2 (stallProbesGo pkt seq now sel ls i fn).2.2 ∧
-        ∀ y ∈ (Hk.probeLink l pkt seq now fnk).2.1, y ∈ (stallProbesGo pkt seq now sel ls i fn).2.1) := by
+        (stallProbesGo fa pkt seq now sel ls i fn).1[k]? = some (Hk.probeLink fa l pkt seq now fnk).1 ∧
+        Hk.FnLe (Hk.probeLink fa l pkt seq now fnk).2.2 (stallProbesGo fa pkt seq now sel ls i fn).2.2 ∧
+        (Hk.probeLink fa l pkt seq now fnk).2.1.Sublist (stallProbesGo fa pkt seq now sel ls i fn).2.1) := by
   intro ls
   induction ls with
   | nil => intro i fn k l hl; simp at hl
@@ -175,7 +182,7 @@ theorem probes_get (pkt : Bytes) (seq : Option Nat) (now sel : Nat) :
         exact Or.inl ⟨fun h => ((probeCalled_iff sel i l0).2 h) hc, rfl⟩
       · rename_i hc
         refine Or.inr ⟨(probeCalled_iff sel i l0).1 hc, fn, Hk.FnLe.refl _, fun _ _ => rfl, rfl,
-          stallProbesGo_fnLe _ _ _ _ _ _ _, fun y hy => List.mem_append_left _ hy⟩
+          stallProbesGo_fnLe _ _ _ _ _ _ _, List.sublist_append_left _ _⟩
     | succ k =>
       simp only [List.getElem?_cons_succ] at hl
       have hik : i + (k + 1) = (i + 1) + k := by omega
@@ -185,11 +192,11 @@ theorem probes_get (pkt : Bytes) (seq : Option Nat) (now sel : Nat) :
         · exact Or.inl ⟨h1, by simpa using h2⟩
         · refine Or.inr ⟨h1, fnk, h2, fun a ha => h3 a (fun m hm => ha m ?_), by simpa using h4, h5, h6⟩
           rw [List.take_succ_cons]; exact List.mem_cons_of_mem _ hm
-      · have hfn := probeLink_fn l0 pkt seq now fn
-        rcases ih (i + 1) (Hk.probeLink l0 pkt seq now fn).2.2 k l hl with ⟨h1, h2⟩ | ⟨h1, fnk, h2, h3, h4, h5, h6⟩
+      · have hfn := probeLink_fn (fa := fa) l0 pkt seq now fn
+        rcases ih (i + 1) (Hk.probeLink fa l0 pkt seq now fn).2.2 k l hl with ⟨h1, h2⟩ | ⟨h1, fnk, h2, h3, h4, h5, h6⟩
         · exact Or.inl ⟨h1, by simpa using h2⟩
         · refine Or.inr ⟨h1, fnk, (fnLe_of_eq_or_erase hfn).trans h2, fun a ha => ?_, by simpa using h4, h5,
-            fun y hy => List.mem_append_right _ (h6 y hy)⟩
+            h6.trans (List.sublist_append_right _ _)⟩
           rw [h3 a (fun m hm => ha m (by rw [List.take_succ_cons]; exact List.mem_cons_of_mem _ hm))]
           exact count_of_eq_or_erase hfn (ha l0 (by rw [List.take_succ_cons]; exact List.mem_cons_self))
 
@@ -197,14 +204,14 @@ theorem probes_get (pkt : Bytes) (seq : Option Nat) (now sel : Nat) :
 
 theorem forwardVia_wire (s : Sys F) (sel : Nat) (pkt : Bytes) (seq : Option Nat) (now : Nat) (l : FLink F)
     (hl : s.links[sel]? = some l) :
-    (forwardVia s sel pkt seq now).2.wire = (Hk.fwdLink l pkt seq now s.failNext).2.1 := by
+    (forwardVia s sel pkt seq now).2.wire = (Hk.fwdLink s.failAfter l pkt seq now s.failNext).2.1 := by
   unfold forwardVia Hk.fwdLink
   rw [hl]
   dsimp only
   split <;> rfl
 
 theorem fwdLink_connId (l : FLink F) (pkt : Bytes) (seq : Option Nat) (now : Nat) (fn : List Nat) :
-    (Hk.fwdLink l pkt seq now fn).1.core.connId = l.core.connId := by
+    (Hk.fwdLink fa l pkt seq now fn).1.core.connId = l.core.connId := by
   have hq := (queueDataPacket_spec l pkt seq now).2.2.1
   have ht := (takeBatch_spec (l.queueDataPacket pkt seq now).1 now).2.2.1
   rcases fwdLink_cases l pkt seq now fn with h | h | h
@@ -218,48 +225,49 @@ theorem fwdLink_connId (l : FLink F) (pkt : Bytes) (seq : Option Nat) (now : Nat
 theorem routeTo_exact (s1 : Sys F) (sel : Nat) (pkt : Bytes) (seq : Option Nat) (now : Nat) (probes : Bool)
     (lsel : FLink F) (hlsel : s1.links[sel]? = some lsel) :
     Hk.FnLe s1.failNext (routeTo s1 sel pkt seq now probes).1.failNext ∧
-    ((routeTo s1 sel pkt seq now probes).1.links[sel]? = some (Hk.fwdLink lsel pkt seq now s1.failNext).1 ∧
-      Hk.FnLe (Hk.fwdLink lsel pkt seq now s1.failNext).2.2 (routeTo s1 sel pkt seq now probes).1.failNext ∧
-      ∀ y ∈ (Hk.fwdLink lsel pkt seq now s1.failNext).2.1, y ∈ (routeTo s1 sel pkt seq now probes).2.wire) ∧
+    ((routeTo s1 sel pkt seq now probes).1.links[sel]? = some (Hk.fwdLink s1.failAfter lsel pkt seq now s1.failNext).1 ∧
+      Hk.FnLe (Hk.fwdLink s1.failAfter lsel pkt seq now s1.failNext).2.2 (routeTo s1 sel pkt seq now probes).1.failNext ∧
+      (Hk.fwdLink s1.failAfter lsel pkt seq now s1.failNext).2.1.Sublist (routeTo s1 sel pkt seq now probes).2.wire) ∧
     ∀ i l1, i ≠ sel → s1.links[i]? = some l1 →
       (¬ (probes = true ∧ probeCalled sel i l1) ∧ (routeTo s1 sel pkt seq now probes).1.links[i]? = some l1) ∨
       (probes = true ∧ probeCalled sel i l1 ∧ ∃ fnk, Hk.FnLe s1.failNext fnk ∧
         ((ids s1.links).Nodup → fnk.count l1.core.connId = s1.failNext.count l1.core.connId) ∧
-        (routeTo s1 sel pkt seq now probes).1.links[i]? = some (Hk.probeLink l1 pkt seq now fnk).1 ∧
-        Hk.FnLe (Hk.probeLink l1 pkt seq now fnk).2.2 (routeTo s1 sel pkt seq now probes).1.failNext ∧
-        ∀ y ∈ (Hk.probeLink l1 pkt seq now fnk).2.1, y ∈ (routeTo s1 sel pkt seq now probes).2.wire) := by
+        (routeTo s1 sel pkt seq now probes).1.links[i]? = some (Hk.probeLink s1.failAfter l1 pkt seq now fnk).1 ∧
+        Hk.FnLe (Hk.probeLink s1.failAfter l1 pkt seq now fnk).2.2 (routeTo s1 sel pkt seq now probes).1.failNext ∧
+        (Hk.probeLink s1.failAfter l1 pkt seq now fnk).2.1.Sublist (routeTo s1 sel pkt seq now probes).2.wire) := by
   obtain ⟨e1, e2, -, -⟩ := Hk.forwardVia_eq s1 sel pkt seq now lsel hlsel
   have ew := forwardVia_wire s1 sel pkt seq now lsel hlsel
-  have hf := fwdLink_fn lsel pkt seq now s1.failNext
+  have hf := fwdLink_fn (fa := s1.failAfter) lsel pkt seq now s1.failNext
   have hfle := fnLe_of_eq_or_erase hf
   unfold routeTo
   dsimp only
   cases probes
   · simp only [Bool.false_eq_true, if_false, false_and, not_false_eq_true, true_and]
     rw [e1, e2, ew]
-    refine ⟨hfle, ⟨?_, Hk.FnLe.refl _, fun y hy => hy⟩, fun i l1 hi hl1 => Or.inl ?_⟩
+    refine ⟨hfle, ⟨?_, Hk.FnLe.refl _, List.Sublist.refl _⟩, fun i l1 hi hl1 => Or.inl ?_⟩
     · rw [setAt_getElem?]; simp [hlsel]
     · rw [setAt_getElem?]; simp [hi, hl1]
   · simp only [if_true, true_and]
     rw [e1, e2, ew]
-    have hple := stallProbesGo_fnLe pkt seq now sel (setAt s1.links sel (Hk.fwdLink lsel pkt seq now s1.failNext).1) 0
-      (Hk.fwdLink lsel pkt seq now s1.failNext).2.2
+    rw [Hk.forwardVia_failAfter]
+    have hple := stallProbesGo_fnLe (fa := s1.failAfter) pkt seq now sel (setAt s1.links sel (Hk.fwdLink s1.failAfter lsel pkt seq now s1.failNext).1) 0
+      (Hk.fwdLink s1.failAfter lsel pkt seq now s1.failNext).2.2
     refine ⟨hfle.trans hple, ?_, fun i l1 hi hl1 => ?_⟩
-    · have hg : (setAt s1.links sel (Hk.fwdLink lsel pkt seq now s1.failNext).1)[sel]? =
-          some (Hk.fwdLink lsel pkt seq now s1.failNext).1 := by
+    · have hg : (setAt s1.links sel (Hk.fwdLink s1.failAfter lsel pkt seq now s1.failNext).1)[sel]? =
+          some (Hk.fwdLink s1.failAfter lsel pkt seq now s1.failNext).1 := by
         rw [setAt_getElem?]; simp [hlsel]
-      rcases probes_get pkt seq now sel _ 0 (Hk.fwdLink lsel pkt seq now s1.failNext).2.2 sel _ hg with
+      rcases probes_get pkt seq now sel _ 0 (Hk.fwdLink s1.failAfter lsel pkt seq now s1.failNext).2.2 sel _ hg with
         ⟨-, h2⟩ | ⟨h1, -⟩
-      · exact ⟨h2, hple, fun y hy => List.mem_append_left _ hy⟩
+      · exact ⟨h2, hple, List.sublist_append_left _ _⟩
       · exact absurd (Nat.zero_add sel) h1.1
-    · have hg : (setAt s1.links sel (Hk.fwdLink lsel pkt seq now s1.failNext).1)[i]? = some l1 := by
+    · have hg : (setAt s1.links sel (Hk.fwdLink s1.failAfter lsel pkt seq now s1.failNext).1)[i]? = some l1 := by
         rw [setAt_getElem?]; simp [hi, hl1]
-      rcases probes_get pkt seq now sel _ 0 (Hk.fwdLink lsel pkt seq now s1.failNext).2.2 i _ hg with
+      rcases probes_get pkt seq now sel _ 0 (Hk.fwdLink s1.failAfter lsel pkt seq now s1.failNext).2.2 i _ hg with
         ⟨h1, h2⟩ | ⟨h1, fnk, h2, h3, h4, h5, h6⟩
       · rw [Nat.zero_add] at h1
         exact Or.inl ⟨h1, h2⟩
       · rw [Nat.zero_add] at h1
-        refine Or.inr ⟨h1, fnk, hfle.trans h2, fun hnd => ?_, h4, h5, fun y hy => List.mem_append_right _ (h6 y hy)⟩
+        refine Or.inr ⟨h1, fnk, hfle.trans h2, fun hnd => ?_, h4, h5, h6.trans (List.sublist_append_right _ _)⟩
         rw [h3 l1.core.connId ?_]
         · exact count_of_eq_or_erase hf (ids_ne hnd hlsel hl1 (Ne.symm hi))
         · intro m hm
@@ -281,10 +289,10 @@ theorem routeTo_exact (s1 : Sys F) (sel : Nat) (pkt : Bytes) (seq : Option Nat) 
 /-- **One client datagram, every link, exactly.**  Non-empty datagram routed to `sel`
 (`target s pkt now = some sel`); `l1` = link `i` as `forward_via_connection` / `send_stall_probes` see it (after
 this call's selection pass: same queue, core, probe counter and regime as before it).  Then
-* `i = sel`: the record afterwards is `Hk.fwdLink l1 …` on the failure list the event started with;
+* `i = sel`: the record afterwards is `Hk.fwdLink fa l1 …` on the failure list the event started with;
 * `i ≠ sel`, `stall_probe_due` not consulted (not registered, or not a data packet, or the link is not
   stall-gated or not connected): the record is `l1`;
-* `i ≠ sel`, consulted: the record is `Hk.probeLink l1 …` on a failure list `fnk` which — conn ids being
+* `i ≠ sel`, consulted: the record is `Hk.probeLink fa l1 …` on a failure list `fnk` which — conn ids being
   distinct — contains link `i`'s conn id exactly as often as the list the event started with.
 In both active cases whatever that link put on the wire is part of the event's wire output, and every failure
 list involved only shrinks towards the one the event leaves behind. -/
@@ -294,11 +302,11 @@ theorem client_exact (s : Sys F) (pkt : Bytes) (now sel : Nat) (hne : pkt.isEmpt
     ∀ i l1, (routedLinks s now)[i]? = some l1 →
       (i = sel ∧
         (handleSrtPacket s pkt now).1.links[i]? =
-          some (Hk.fwdLink l1 pkt (Codec.getSrtSequenceNumberS pkt) now s.failNext).1 ∧
-        Hk.FnLe (Hk.fwdLink l1 pkt (Codec.getSrtSequenceNumberS pkt) now s.failNext).2.2
+          some (Hk.fwdLink s.failAfter l1 pkt (Codec.getSrtSequenceNumberS pkt) now s.failNext).1 ∧
+        Hk.FnLe (Hk.fwdLink s.failAfter l1 pkt (Codec.getSrtSequenceNumberS pkt) now s.failNext).2.2
           (handleSrtPacket s pkt now).1.failNext ∧
-        ∀ y ∈ (Hk.fwdLink l1 pkt (Codec.getSrtSequenceNumberS pkt) now s.failNext).2.1,
-          y ∈ (handleSrtPacket s pkt now).2.wire) ∨
+        (Hk.fwdLink s.failAfter l1 pkt (Codec.getSrtSequenceNumberS pkt) now s.failNext).2.1.Sublist
+          (handleSrtPacket s pkt now).2.wire) ∨
       (i ≠ sel ∧
         ¬ ((s.reg.hasConnected && (Codec.getSrtSequenceNumberS pkt).isSome) = true ∧ probeCalled sel i l1) ∧
         (handleSrtPacket s pkt now).1.links[i]? = some l1) ∨
@@ -306,11 +314,11 @@ theorem client_exact (s : Sys F) (pkt : Bytes) (now sel : Nat) (hne : pkt.isEmpt
         ∃ fnk, Hk.FnLe s.failNext fnk ∧
           ((ids s.links).Nodup → fnk.count l1.core.connId = s.failNext.count l1.core.connId) ∧
           (handleSrtPacket s pkt now).1.links[i]? =
-            some (Hk.probeLink l1 pkt (Codec.getSrtSequenceNumberS pkt) now fnk).1 ∧
-          Hk.FnLe (Hk.probeLink l1 pkt (Codec.getSrtSequenceNumberS pkt) now fnk).2.2
+            some (Hk.probeLink s.failAfter l1 pkt (Codec.getSrtSequenceNumberS pkt) now fnk).1 ∧
+          Hk.FnLe (Hk.probeLink s.failAfter l1 pkt (Codec.getSrtSequenceNumberS pkt) now fnk).2.2
             (handleSrtPacket s pkt now).1.failNext ∧
-          ∀ y ∈ (Hk.probeLink l1 pkt (Codec.getSrtSequenceNumberS pkt) now fnk).2.1,
-            y ∈ (handleSrtPacket s pkt now).2.wire) := by
+          (Hk.probeLink s.failAfter l1 pkt (Codec.getSrtSequenceNumberS pkt) now fnk).2.1.Sublist
+            (handleSrtPacket s pkt now).2.wire) := by
   have hrange : sel < (routedLinks s now).length := by
     rw [routedLinks_length]; exact target_in_range s pkt now sel ht
   obtain ⟨lsel, hlsel⟩ : ∃ l, (routedLinks s now)[sel]? = some l := ⟨_, List.getElem?_eq_getElem hrange⟩
@@ -336,7 +344,9 @@ theorem client_exact (s : Sys F) (pkt : Bytes) (now sel : Nat) (hne : pkt.isEmpt
     obtain ⟨r1, r2, r3⟩ := routeTo_exact (runSelect s now).1 sel pkt (Codec.getSrtSequenceNumberS pkt) now
       (Codec.getSrtSequenceNumberS pkt).isSome lsel hlsel
     have hfn : (runSelect s now).1.failNext = s.failNext := rfl
+    have hfa : (runSelect s now).1.failAfter = s.failAfter := rfl
     rw [hfn] at r1 r2 r3
+    rw [hfa] at r2 r3
     refine ⟨r1, fun i l1 hl1 => ?_⟩
     by_cases hi : i = sel
     · subst hi
@@ -349,7 +359,7 @@ theorem client_exact (s : Sys F) (pkt : Bytes) (now sel : Nat) (hne : pkt.isEmpt
 /-! ## 4. The periodic flush, position by position -/
 
 theorem sendBatch_fn (l : FLink F) (now : Nat) (fn : List Nat) :
-    (sendConnectionBatch l now fn).2.2.2 = fn ∨ (sendConnectionBatch l now fn).2.2.2 = fn.erase l.core.connId := by
+    (sendConnectionBatch fa l now fn).2.2.2 = fn ∨ (sendConnectionBatch fa l now fn).2.2.2 = fn.erase l.core.connId := by
   rw [sendBatch_exact]
   split
   · exact Or.inl rfl
@@ -357,7 +367,7 @@ theorem sendBatch_fn (l : FLink F) (now : Nat) (fn : List Nat) :
     · exact Or.inr rfl
     · exact Or.inl rfl
 
-theorem flushGo_fnLe (now : Nat) (ls : List (FLink F)) (fn : List Nat) : Hk.FnLe fn (flushGo now ls fn).2.2 := by
+theorem flushGo_fnLe (now : Nat) (ls : List (FLink F)) (fn : List Nat) : Hk.FnLe fn (flushGo fa now ls fn).2.2 := by
   induction ls generalizing fn with
   | nil => exact Hk.FnLe.refl _
   | cons l rest ih =>
@@ -372,12 +382,12 @@ through `send_connection_batch` on the failure list `fnk` threaded up to that po
 list the pass started with only by erasures of conn ids of EARLIER links. -/
 theorem flushGo_get (now : Nat) :
     ∀ (ls : List (FLink F)) (fn : List Nat) (k : Nat) (l : FLink F), ls[k]? = some l →
-      (¬ ((l.needsBatchFlush now || !l.queue.isEmpty) = true) ∧ (flushGo now ls fn).1[k]? = some l) ∨
+      (¬ ((l.needsBatchFlush now || !l.queue.isEmpty) = true) ∧ (flushGo fa now ls fn).1[k]? = some l) ∨
       ((l.needsBatchFlush now || !l.queue.isEmpty) = true ∧ ∃ fnk, Hk.FnLe fn fnk ∧
         (∀ a, (∀ m ∈ ls.take k, m.core.connId ≠ a) → fnk.count a = fn.count a) ∧
-        (flushGo now ls fn).1[k]? = some (sendConnectionBatch l now fnk).1 ∧
-        Hk.FnLe (sendConnectionBatch l now fnk).2.2.2 (flushGo now ls fn).2.2 ∧
-        ∀ y ∈ (sendConnectionBatch l now fnk).2.1, y ∈ (flushGo now ls fn).2.1) := by
+        (flushGo fa now ls fn).1[k]? = some (sendConnectionBatch fa l now fnk).1 ∧
+        Hk.FnLe (sendConnectionBatch fa l now fnk).2.2.2 (flushGo fa now ls fn).2.2 ∧
+        (sendConnectionBatch fa l now fnk).2.1.Sublist (flushGo fa now ls fn).2.1) := by
   intro ls
   induction ls with
   | nil => intro fn k l hl; simp at hl
@@ -392,18 +402,18 @@ theorem flushGo_get (now : Nat) :
       · rename_i hc
         dsimp only
         exact Or.inr ⟨hc, fn, Hk.FnLe.refl _, fun _ _ => rfl, rfl, flushGo_fnLe _ _ _,
-          fun y hy => List.mem_append_left _ hy⟩
+          List.sublist_append_left _ _⟩
       · rename_i hc
         exact Or.inl ⟨hc, rfl⟩
     | succ k =>
       simp only [List.getElem?_cons_succ] at hl
       split
       · dsimp only
-        have hfn := sendBatch_fn l0 now fn
-        rcases ih (sendConnectionBatch l0 now fn).2.2.2 k l hl with ⟨h1, h2⟩ | ⟨h1, fnk, h2, h3, h4, h5, h6⟩
+        have hfn := sendBatch_fn (fa := fa) l0 now fn
+        rcases ih (sendConnectionBatch fa l0 now fn).2.2.2 k l hl with ⟨h1, h2⟩ | ⟨h1, fnk, h2, h3, h4, h5, h6⟩
         · exact Or.inl ⟨h1, by simpa using h2⟩
         · refine Or.inr ⟨h1, fnk, (fnLe_of_eq_or_erase hfn).trans h2, fun a ha => ?_, by simpa using h4, h5,
-            fun y hy => List.mem_append_right _ (h6 y hy)⟩
+            h6.trans (List.sublist_append_right _ _)⟩
           rw [h3 a (fun m hm => ha m (by rw [List.take_succ_cons]; exact List.mem_cons_of_mem _ hm))]
           exact count_of_eq_or_erase hfn (ha l0 (by rw [List.take_succ_cons]; exact List.mem_cons_self))
       · dsimp only
@@ -420,9 +430,9 @@ theorem flush_exact (s : Sys F) (now : Nat) (i : Nat) (l : FLink F) (hl : s.link
     ((l.queue = [] ∧ (flushAllBatches s now).1.links[i]? = some l) ∨
      (l.queue ≠ [] ∧ ∃ fnk, Hk.FnLe s.failNext fnk ∧
         ((ids s.links).Nodup → fnk.count l.core.connId = s.failNext.count l.core.connId) ∧
-        (flushAllBatches s now).1.links[i]? = some (sendConnectionBatch l now fnk).1 ∧
-        Hk.FnLe (sendConnectionBatch l now fnk).2.2.2 (flushAllBatches s now).1.failNext ∧
-        ∀ y ∈ (sendConnectionBatch l now fnk).2.1, y ∈ (flushAllBatches s now).2.wire)) := by
+        (flushAllBatches s now).1.links[i]? = some (sendConnectionBatch s.failAfter l now fnk).1 ∧
+        Hk.FnLe (sendConnectionBatch s.failAfter l now fnk).2.2.2 (flushAllBatches s now).1.failNext ∧
+        (sendConnectionBatch s.failAfter l now fnk).2.1.Sublist (flushAllBatches s now).2.wire)) := by
   have hcond : ∀ m : FLink F, (m.needsBatchFlush now || !m.queue.isEmpty) = true ↔ m.queue ≠ [] := by
     intro m
     unfold FLink.needsBatchFlush
@@ -462,35 +472,61 @@ theorem wireOf_ne_nil_of_mem {c : Nat} {b : Bytes} {w : List (Nat × Bytes)} (h 
   rw [he] at this
   cases this
 
-/-- The three outcomes of `Hk.fwdLink`, seen from outside: the queue is non-empty afterwards, or something
-tagged with the link's conn id is on the wire, or the injected failure for the conn id is consumed. -/
+/-- A client datagram appends at most one item to a link's queue. -/
+theorem appendedClient_length_le (s : Sys F) (pkt : Bytes) (now i : Nat) :
+    (appendedClient s pkt now i).length ≤ 1 := by
+  unfold appendedClient
+  split
+  · simp
+  · split
+    · unfold clientApp probeApp
+      split
+      · simp
+      · split
+        · split <;> simp
+        · simp
+    · simp
+
+theorem wireOf_sublist {c : Nat} {a b : List (Nat × Bytes)} (h : a.Sublist b) : (wireOf c a).Sublist (wireOf c b) := by
+  unfold wireOf
+  exact (h.filter _).map _
+
+/-- The three outcomes of `Hk.fwdLink`, seen from outside: the queue is non-empty afterwards, or the WHOLE queue
+incl. the new datagram, tagged with the link's conn id, is what the call put on the wire, or the injected failure
+for the conn id is consumed (and then only a prefix went out). -/
 theorem fwdLink_fate (l : FLink F) (pkt : Bytes) (seq : Option Nat) (now : Nat) (fn : List Nat) :
-    (Hk.fwdLink l pkt seq now fn).1.queue ≠ [] ∨
-    (∃ b, (l.core.connId, b) ∈ (Hk.fwdLink l pkt seq now fn).2.1) ∨
-    (Hk.fwdLink l pkt seq now fn).2.2.count l.core.connId < fn.count l.core.connId := by
+    (Hk.fwdLink fa l pkt seq now fn).1.queue ≠ [] ∨
+    (wireOf l.core.connId (Hk.fwdLink fa l pkt seq now fn).2.1).length = l.queue.length + 1 ∨
+    (Hk.fwdLink fa l pkt seq now fn).2.2.count l.core.connId < fn.count l.core.connId := by
   rcases fwdLink_cases l pkt seq now fn with h | h | h
   · left
     rw [h.2.1, (queueDataPacket_spec l pkt seq now).1]
     simp
   · right; left
-    rw [h.2.2.2.1]
-    exact ⟨pkt, List.mem_map.2 ⟨pkt, by simp [bytesOf], rfl⟩⟩
+    rw [h.2.2.2.1, wireOf_tag_self]
+    simp [bytesOf]
   · right; right
     rw [h.2.2.2.2]
     exact Hk.count_erase_lt fn _ (by simpa using h.2.1)
 
 /-- **Client event: nothing vanishes without a consumed injection.**  If link `i` held something before a client
 event or was handed a copy by it (`l.queue ++ appendedClient … ≠ []`), and afterwards its queue is empty and the
-event put nothing on its socket, then the event consumed an injected send failure for its conn id: the
-multiplicity of the conn id in `failNext` is strictly smaller afterwards. -/
+event put FEWER datagrams on its socket than that (nothing, or only a prefix: a send that failed part-way), then the
+event consumed an injected send failure for its conn id: the multiplicity of the conn id in `failNext` is strictly
+smaller afterwards. -/
 theorem client_consumed (s : Sys F) (pkt : Bytes) (now : Nat) (hnd : (ids s.links).Nodup) (i : Nat) (l l' : FLink F)
     (hl : s.links[i]? = some l) (hl' : (handleSrtPacket s pkt now).1.links[i]? = some l')
     (hne : l.queue ++ appendedClient s pkt now i ≠ []) (hq : l'.queue = [])
-    (hw : wireOf l.core.connId (handleSrtPacket s pkt now).2.wire = []) :
+    (hw : (wireOf l.core.connId (handleSrtPacket s pkt now).2.wire).length <
+      (l.queue ++ appendedClient s pkt now i).length) :
     (handleSrtPacket s pkt now).1.failNext.count l.core.connId < s.failNext.count l.core.connId := by
   obtain ⟨-, -, -, -, -, -, -, h8⟩ := client_links s pkt now hnd
   obtain ⟨l'', g1, -, -, g4⟩ := h8 i l hl
   rw [hl'] at g1; cases g1
+  have hal : (l.queue ++ appendedClient s pkt now i).length ≤ l.queue.length + 1 := by
+    rw [List.length_append]
+    have := appendedClient_length_le s pkt now i
+    omega
   by_cases happ : appendedClient s pkt now i = []
   · exfalso
     rw [happ, List.append_nil] at hne
@@ -512,21 +548,26 @@ theorem client_consumed (s : Sys F) (pkt : Bytes) (now : Nat) (hnd : (ids s.link
       rw [if_neg (by simp [hpe]), ht, r1]
     have hcid : l1.core.connId = l.core.connId := by rw [rc]
     obtain ⟨hfle, hx⟩ := client_exact s pkt now sel hpe ht
-    -- the common end: a `fwdLink` on a record `m` with `m`'s conn id = `l`'s, from a list `fn0 ≤ failNext`
-    have fin : ∀ (m : FLink F) (fn0 : List Nat), m.core.connId = l.core.connId → Hk.FnLe s.failNext fn0 →
-        l' = (Hk.fwdLink m pkt (Codec.getSrtSequenceNumberS pkt) now fn0).1 →
-        Hk.FnLe (Hk.fwdLink m pkt (Codec.getSrtSequenceNumberS pkt) now fn0).2.2 (handleSrtPacket s pkt now).1.failNext →
-        (∀ y ∈ (Hk.fwdLink m pkt (Codec.getSrtSequenceNumberS pkt) now fn0).2.1, y ∈ (handleSrtPacket s pkt now).2.wire) →
+    -- the common end: a `fwdLink` on a record `m` with `m`'s conn id and queue length = `l`'s, from a list
+    -- `fn0 ≤ failNext`
+    have fin : ∀ (m : FLink F) (fn0 : List Nat), m.core.connId = l.core.connId → m.queue.length = l.queue.length →
+        Hk.FnLe s.failNext fn0 →
+        l' = (Hk.fwdLink s.failAfter m pkt (Codec.getSrtSequenceNumberS pkt) now fn0).1 →
+        Hk.FnLe (Hk.fwdLink s.failAfter m pkt (Codec.getSrtSequenceNumberS pkt) now fn0).2.2 (handleSrtPacket s pkt now).1.failNext →
+        ((Hk.fwdLink s.failAfter m pkt (Codec.getSrtSequenceNumberS pkt) now fn0).2.1.Sublist (handleSrtPacket s pkt now).2.wire) →
         (handleSrtPacket s pkt now).1.failNext.count l.core.connId < s.failNext.count l.core.connId := by
-      intro m fn0 hm h0 e1 e2 e3
-      rcases fwdLink_fate m pkt (Codec.getSrtSequenceNumberS pkt) now fn0 with h | ⟨b, h⟩ | h
+      intro m fn0 hm hmq h0 e1 e2 e3
+      rcases fwdLink_fate (fa := s.failAfter) m pkt (Codec.getSrtSequenceNumberS pkt) now fn0 with h | h | h
       · rw [← e1] at h; exact absurd hq h
-      · rw [hm] at h; exact absurd hw (wireOf_ne_nil_of_mem (e3 _ h))
+      · exfalso
+        have := (wireOf_sublist (c := l.core.connId) e3).length_le
+        rw [hm] at h
+        omega
       · rw [hm] at h
         exact Nat.lt_of_le_of_lt (e2 _) (Nat.lt_of_lt_of_le h (h0 _))
     rcases hx i l1 r1 with ⟨hi, e1, e2, e3⟩ | ⟨hi, hnp, e1⟩ | ⟨hi, hp, hpc, fnk, f1, -, e1, e2, e3⟩
     · rw [hl'] at e1
-      exact fin l1 s.failNext hcid (Hk.FnLe.refl _) (Option.some.inj e1) e2 e3
+      exact fin l1 s.failNext hcid (by rw [rq]) (Hk.FnLe.refl _) (Option.some.inj e1) e2 e3
     · exfalso
       apply happ
       rw [happ']
@@ -537,7 +578,7 @@ theorem client_consumed (s : Sys F) (pkt : Bytes) (now : Nat) (hnd : (ids s.link
         rw [if_neg (fun h => hnp ⟨hpp, h.1⟩)]
       · rfl
     · rw [hl'] at e1
-      rcases probeLink_cases l1 pkt (Codec.getSrtSequenceNumberS pkt) now fnk with ⟨hlt, hpl⟩ | ⟨hge, hpl⟩
+      rcases probeLink_cases (fa := s.failAfter) l1 pkt (Codec.getSrtSequenceNumberS pkt) now fnk with ⟨hlt, hpl⟩ | ⟨hge, hpl⟩
       · exfalso
         apply happ
         rw [happ']
@@ -545,13 +586,13 @@ theorem client_consumed (s : Sys F) (pkt : Bytes) (now : Nat) (hnd : (ids s.link
         rw [if_neg hi, if_pos hp, if_neg (fun h => by omega)]
       · rw [hpl] at e1 e2 e3
         obtain ⟨-, -, d3, d4, -⟩ := stallProbeDue_spec l1
-        exact fin l1.stallProbeDue.1 fnk (by rw [d4, hcid]) f1 (Option.some.inj e1) e2 e3
+        exact fin l1.stallProbeDue.1 fnk (by rw [d4, hcid]) (by rw [d3, rq]) f1 (Option.some.inj e1) e2 e3
 
 /-- **Flush event: nothing vanishes without a consumed injection.**  If link `i`'s queue was non-empty before a
-`flush` event and the event put nothing on its socket, then the event consumed an injected send failure for its
-conn id. -/
+`flush` event and the event put fewer datagrams on its socket than the queue held (nothing, or only a prefix), then
+the event consumed an injected send failure for its conn id. -/
 theorem flush_consumed (s : Sys F) (now : Nat) (i : Nat) (l : FLink F) (hl : s.links[i]? = some l)
-    (hne : l.queue ≠ []) (hw : wireOf l.core.connId (flushAllBatches s now).2.wire = []) :
+    (hne : l.queue ≠ []) (hw : (wireOf l.core.connId (flushAllBatches s now).2.wire).length < l.queue.length) :
     (flushAllBatches s now).1.failNext.count l.core.connId < s.failNext.count l.core.connId := by
   obtain ⟨-, h⟩ := flush_exact s now i l hl
   rcases h with ⟨h, -⟩ | ⟨-, fnk, f1, -, -, e2, e3⟩
@@ -562,16 +603,14 @@ theorem flush_consumed (s : Sys F) (now : Nat) (i : Nat) (l : FLink F) (hl : s.l
     simp only [Bool.false_eq_true, if_false] at e2 e3
     split at e2
     · rename_i hc
-      rw [if_pos hc] at e3
       exact Nat.lt_of_le_of_lt (e2 _) (Nat.lt_of_lt_of_le (Hk.count_erase_lt fnk _ hc) (f1 _))
     · rename_i hc
       rw [if_neg hc] at e3
       exfalso
-      obtain ⟨x, hx⟩ : ∃ x, x ∈ bytesOf l.queue := by
-        cases h : l.queue with
-        | nil => exact absurd h hne
-        | cons a t => exact ⟨a.1, by simp [bytesOf]⟩
-      exact wireOf_ne_nil_of_mem (e3 _ (List.mem_map.2 ⟨x, hx, rfl⟩)) hw
+      have := (wireOf_sublist (c := l.core.connId) e3).length_le
+      rw [wireOf_tag_self] at this
+      simp only [bytesOf, List.length_map] at this
+      omega
 
 /-- A client event only ever REMOVES entries from the fault-injection list. -/
 theorem client_fnLe (s : Sys F) (pkt : Bytes) (now : Nat) :
